@@ -14,6 +14,9 @@ N == Cardinality(Tasks)
 ProgsChain == {[t \in Tasks |-> IF t = 1 THEN <<Sleep(1), Send(2)>> ELSE IF t < N THEN <<Recv(t), Send(t + 1)>> ELSE <<Recv(t)>>]}
 (* fan-out: task 1 wakes all others in one poll *)
 ProgsFan == {[t \in Tasks |-> IF t = 1 THEN <<Sleep(1)>> \o [i \in 1..(N - 1) |-> Send(i + 1)] ELSE <<Recv(t), Sleep(1)>>]}
+(* the fan-out happens in the second incarnation of the module (restart requested by task 1) *)
+Restart(d) == St("restart", d, 0, "")
+ProgsFanRestart == {[t \in Tasks |-> IF t = 1 THEN <<Restart(1), Sleep(1)>> \o [i \in 1..(N - 1) |-> Send(i + 1)] ELSE <<Recv(t), Sleep(1)>>]}
 (* one receiver drains many messages in one poll; the sender produces them in one poll *)
 ProgsDrain == {[t \in Tasks |-> IF t = 1 THEN <<Sleep(1)>> \o [i \in 1..40 |-> Send(2)] \o <<Sleep(1)>>
                                 ELSE IF t = 2 THEN [i \in 1..40 |-> Recv(2)] \o <<Sleep(1)>> ELSE <<Sleep(2)>>]}
